@@ -42,6 +42,9 @@ FIXED_MODULE = """STRMFIX DEFINITIONS AUTOMATIC TAGS ::= BEGIN
   FxBits ::= BIT STRING
   FxExtSeq ::= SEQUENCE { a INTEGER, b BOOLEAN OPTIONAL, ..., c BOOLEAN, d NULL OPTIONAL }
   FxExtCh ::= CHOICE { x INTEGER, ..., y BOOLEAN }
+  FxTwo ::= [9] EXPLICIT FxSeqOf
+  FxIa ::= [APPLICATION 3] EXPLICIT IA5String
+  FxTagEl ::= [10] EXPLICIT SET OF [1] EXPLICIT SEQUENCE { s [0] EXPLICIT FxOs, t [1] IMPLICIT FxIa OPTIONAL }
   FxMany ::= SEQUENCE { m0 INTEGER OPTIONAL, m1 BOOLEAN OPTIONAL, m2 NULL OPTIONAL, m3 INTEGER OPTIONAL, m4 BOOLEAN OPTIONAL,
                         m5 OCTET STRING OPTIONAL, m6 INTEGER OPTIONAL, m7 BOOLEAN OPTIONAL, m8 NULL OPTIONAL, m9 INTEGER OPTIONAL,
                         m10 BOOLEAN }
@@ -64,6 +67,8 @@ FIXED_VALUES = [
     ("FxUntag", "(seq (h (int 1)) (ch (choice w (list (bool t)))) (t (bool f)))"),
     ("FxNest", "(list (seq (k (os 010203)) (l (list (choice x (int 1)) (choice y (bool t))))) (seq (k (os -)) (l (list))))"),
     ("FxBig", "(int 18446744073709551615)"), ("FxBig", "(int 0)"),
+    ("FxTwo", "(list (int 1) (int -300))"), ("FxIa", "(os 6162636465)"),
+    ("FxTagEl", "(list (seq (s (os 0102)) (t (os 6162))) (seq (s (os -))))"),
 ]
 # hand-made BER: unknown extension additions / alternatives that the decoders have to skip (ber_skip_length)
 FIXED_RAW = [
@@ -73,9 +78,13 @@ FIXED_RAW = [
     ("FxMany", "3080 8a01ff 0000"), ("FxMany", "3006 8a01ff 8101ff"),    # out-of-order member after the mandatory one
 ]
 
+# string types of the fixed module below a written tag: length of the tag chain (for bervar.string_variants)
+TAGGED_STRINGS = {("STRMFIX", "FxOs"): 2, ("STRMFIX", "FxIa"): 2}
+
 def _fixed_bundle(ctx):
     """a fixed module exercising the shapes a random module may miss: EXPLICIT tags on SEQUENCE OF / SET OF / CHOICE /
-    OCTET STRING (two-tag chains), extension skipping, > 8 OPTIONAL members (bsearch path), untagged CHOICE members"""
+    OCTET STRING / IA5String (two- and three-tag chains, the former region of finding F160), tagged SET OF elements,
+    extension skipping, > 8 OPTIONAL members (bsearch path), untagged CHOICE members"""
     from . import bundle
     names = re.findall(r"^\s*(Fx\w+) ::=", FIXED_MODULE, re.M)
     b = bundle.Bundle("STRMFIX", FIXED_MODULE, names)
@@ -142,6 +151,9 @@ def run_stream(ctx, bundles):
             inputs = [("der", der, True)]
             for vn, vb in bervar.variants(der, rng, 1 if quick else 3):
                 inputs.append(("ber:" + vn.rstrip("0123456789"), vb, vn in ("all-indefinite", "long-form")))
+            if (m["name"], n) in TAGGED_STRINGS:
+                for vn, vb in bervar.string_variants(der, TAGGED_STRINGS[(m["name"], n)], False, rng):
+                    inputs.append(("ber:" + vn, vb, vn.endswith("indef")))
             muts = []
             tr = mutate.truncations(der, cap=8 if quick else 32)
             muts += [("trunc", x) for x in (tr if not quick else rng.sample(tr, min(len(tr), 4)))]
@@ -165,9 +177,9 @@ def run_stream(ctx, bundles):
         rc, mo, err = ctx.run_lines(build.model_exe(), ml)
         if rc != 0 or len(mo) != len(ml): raise RuntimeError("model driver failed: " + err[-300:])
         txt = None
-        # P leg on the C outputs alone (independent of the model): inside the domain of the theorem
-        # `stream_chunked_eq_oneshot` every chunk schedule must end like the one-shot run (same rc; same
-        # total / value unless RC_FAIL); outside the domain differences are counted (proposed finding F160)
+        # P leg on the C outputs alone (independent of the model): every chunk schedule must end like the one-shot run
+        # (same rc; same total / value unless RC_FAIL) -- the statement of `stream_chunked_eq_oneshot`, whose domain covers
+        # tag chains of any length since the repair of finding F160 (a fixed finding suppresses nothing)
         fin = re.compile(r"final (\w+) (\d+) (.*)$")
         oneshot = {}
         for (n, hx, cuts, cls), c in zip(lines, co):
@@ -187,12 +199,10 @@ def run_stream(ctx, bundles):
                 if txt is None: txt = m.get("_text") or genmod.module_text(m)
                 ctx.violation(f"C05 (BER stream): chunked decoding {g[:2]} != one-shot {o[:2]} for type {n} inside the theorem domain: decchunks ber {hx[:80]} {cuts[:40]}",
                               {"module": txt, "type": n, "op": f"@{n} decchunks ber {hx} {cuts}", "c_output": _norm(c)[:600], "oneshot": list(o)})
-            elif ctx.match_finding(lambda f: f["id"] == "F160" and f.get("property") == "C05"):
-                cnt["p_diff_outside_domain(F160)"] += 1
             else:
                 cnt["p_diff_outside_domain"] += 1
                 if txt is None: txt = m.get("_text") or genmod.module_text(m)
-                ctx.violation(f"C05 (BER stream): chunked decoding {g[:2]} != one-shot {o[:2]} for type {n} (multi-tag chain): decchunks ber {hx[:80]} {cuts[:40]}",
+                ctx.violation(f"C05 (BER stream): chunked decoding {g[:2]} != one-shot {o[:2]} for type {n} (outside the theorem domain): decchunks ber {hx[:80]} {cuts[:40]}",
                               {"module": txt, "type": n, "op": f"@{n} decchunks ber {hx} {cuts}", "c_output": _norm(c)[:600], "oneshot": list(o)})
         for (n, hx, cuts, cls), c, mm in zip(lines, co, mo[1:]):
             cnt["traces"] += 1; cnt["class:" + cls] += 1
